@@ -35,8 +35,20 @@ UNIONS = [
 ]
 
 
+# alternatives that move the stream BACKWARDS before they fail (Pointer does not return on failure, Seek never does)
+BACK = ["Struct('m'/Pointer(0, Const(b'\\x4f')), 'v'/Byte)", "Sequence(Seek(1), Const(b'Z'))", "Struct('p'/Pointer(1, OneOf(Byte, [1, 2])), 'v'/Int16ub)"]
+
+
 def instances(tier, seed):
     out = []
+    for bk in BACK:
+        for s0 in (0, 2, 3):
+            for alt in ("fixed", "const", "var"):
+                out.append(dict(name="select %s,%s @%d" % (bk, alt, s0), params=dict(kind="select", ms=[bk, alt], opt=False, s=s0, n=6)))
+            out.append(dict(name="optional %s @%d" % (bk, s0), params=dict(kind="select", ms=[bk], opt=True, s=s0, n=6)))
+            out.append(dict(name="struct(optional %s, byte) @%d" % (bk, s0), params=dict(kind="select-next", m=bk, s=s0, n=6)))
+    for s0 in (0, 1, 2):
+        out.append(dict(name="union re-entered through LazyBound recursion @%d" % s0, params=dict(kind="union-rec", s=s0, n=6)))
     offs = [0, 1, 2] if tier == "quick" else [0, 1, 2, 3]
     n = 6 if tier == "quick" else 9
     names = sorted(MEMBERS)
@@ -264,7 +276,7 @@ def harness(ctx, C, p):
         ctx.check("the region's own fields and the outer position are unaffected", api.and_terms([ctx.eq(v.p.x, region[0]), ctx.eq(v.p.y, mkbytes(list(region[1:]))), ctx.eq(v.after, 3 + ln)]))
         return "ok"
     if kind == "select":
-        ms = [MEMBERS[x] for x in p["ms"]]
+        ms = [MEMBERS.get(x, x) for x in p["ms"]]
         src_ = "Optional(%s)" % ms[0] if p["opt"] else "Select(%s)" % ", ".join(ms)
         d = mk(C, src_)
         st = _at(ctx, data, s)
@@ -281,6 +293,29 @@ def harness(ctx, C, p):
             return "none"
         ctx.check("no alternative matched: SelectError", (not r.ok) and isinstance(r.exc, C.SelectError))
         return "none"
+    if kind == "select-next":
+        # what follows an Optional that gave up starts where the Optional started
+        d = mk(C, "Struct('o'/Optional(%s), 'next'/Byte)" % p["m"])
+        st = _at(ctx, data, s)
+        r = api.outcome(d.parse_stream, st)
+        ra, pos = _alone(ctx, C, p["m"], data, s)
+        start = pos if ra.ok else s
+        if start >= len(data):
+            return "short"
+        ctx.check("parse succeeds", r.ok)
+        ctx.check("the member after the Optional reads the byte at the Optional's end (or start, when it gave up)", ctx.eq(r.value.next, data[start]) and st.tell() == start + 1)
+        return "alt" if ra.ok else "none"
+    if kind == "union-rec":
+        holder = []
+        node = mk(C, "Union(0, 'tag'/Byte, 'pair'/Struct('tag'/Byte, 'sub'/If(this.tag == 1, LazyBound(lambda: NODE[0]))))", {"NODE": holder})
+        holder.append(node)
+        st = _at(ctx, data, s)
+        r = api.outcome(node.parse_stream, st)
+        if not r.ok:
+            return "fail"
+        ctx.check("the outer Union ends at the end of ITS selected member, however often the same Union object was re-entered below", st.tell() == s + 1)
+        ctx.check("and returns its own members", ctx.eq(r.value.tag, data[s]) and ctx.eq(r.value.pair.tag, data[s]))
+        return "ok"
     if kind == "range":
         m = MEMBERS[p["m"]]
         d = mk(C, "GreedyRange(%s%s)" % (m, ", discard=True" if p.get("discard") else ""))
